@@ -124,7 +124,7 @@ func TestC08Recovery(t *testing.T) {
 		}
 		actions := map[string]func(*rapid.T){
 			"reading": func(t *rapid.T) {
-				s.setClock(s.now + uint32(rapid.IntRange(1, 3).Draw(t, "advance")))
+				s.setClock(s.now + uint32(rapid.SampledFrom([]int{1, 1, 1, 1, 2, 3}).Draw(t, "advance")))
 				slot := s.now
 				if _, dup := clientVal[slot]; dup || slot <= latest {
 					t.Skip("slot already has a reading")
@@ -150,6 +150,33 @@ func TestC08Recovery(t *testing.T) {
 				unticked++
 				s.logf("reading(slot %d, %q -> %d)", slot, lit, int64(v))
 			},
+			"burst": func(t *rapid.T) {
+				// a dense run of readings for consecutive slots (fills whole bytes of the sync bitfield)
+				n := rapid.IntRange(8, 40).Draw(t, "burstLen")
+				for i := 0; i < n; i++ {
+					s.setClock(s.now + 1)
+					slot := s.now
+					if _, dup := clientVal[slot]; dup || slot <= latest {
+						continue
+					}
+					lit := strconv.FormatInt(rapid.Int64Range(24, 100000).Draw(t, "burstVal"), 10)
+					if rapid.IntRange(0, 9).Draw(t, "burstNeg") == 0 {
+						lit = "-" + lit
+					}
+					v := c09Value(lit, m, d)
+					file.WriteString(fmt.Sprintf("%d,%s\n", g+300*int64(slot)+11, lit))
+					clientVal[slot] = v
+					latest = slot
+					unticked++
+				}
+				s.logf("burst of %d consecutive readings up to slot %d", n, latest)
+				world.WriteEnergy(cdir, file.String())
+				if !c.VerifStep("tick") {
+					s.fail("client did not take the granted tick (panics %+v)", client.VerifPanics())
+				}
+				collect(unticked)
+				unticked = 0
+			},
 			"tick": func(t *rapid.T) {
 				world.WriteEnergy(cdir, file.String())
 				s.logf("client tick (%d new readings)", unticked)
@@ -163,11 +190,32 @@ func TestC08Recovery(t *testing.T) {
 				if len(pending) == 0 {
 					t.Skip("nothing held")
 				}
-				order := rapid.Permutation(pending).Draw(t, "order")
+				order := pending
+				if rapid.Bool().Draw(t, "reorder") {
+					order = rapid.Permutation(pending).Draw(t, "order")
+				}
+				mode := rapid.SampledFrom([]string{"independent", "drop-few", "drop-few", "low-loss"}).Draw(t, "relayMode")
+				dropIdx := map[int]bool{}
+				if mode == "drop-few" {
+					for i, n := 0, rapid.IntRange(1, 2).Draw(t, "dropCount"); i < n; i++ {
+						dropIdx[rapid.IntRange(0, len(order)-1).Draw(t, "dropWhich")] = true
+					}
+				}
 				var keep [][]byte
-				for _, b := range order {
+				for oi, b := range order {
 					r, _ := ref.DecodeReport(b)
-					switch rapid.SampledFrom([]string{"drop", "drop", "deliver", "duplicate", "hold"}).Draw(t, "decision") {
+					decision := "deliver"
+					switch mode {
+					case "independent":
+						decision = rapid.SampledFrom([]string{"drop", "drop", "deliver", "duplicate", "hold"}).Draw(t, "decision")
+					case "low-loss":
+						decision = rapid.SampledFrom([]string{"drop", "deliver", "deliver", "deliver", "deliver", "deliver", "deliver", "deliver", "duplicate", "hold"}).Draw(t, "decisionLow")
+					default:
+						if dropIdx[oi] {
+							decision = "drop"
+						}
+					}
+					switch decision {
 					case "drop":
 						s.logf("relay drops datagram for slot %d", r.Timeslot)
 						if s.M.Live[id] != nil && int64(r.Timeslot) >= int64(s.M.Offset) && int64(r.Timeslot) < int64(s.M.Offset)+4032 && !s.M.Live[id][r.Timeslot-s.M.Offset].Has {
@@ -223,7 +271,7 @@ func TestC08Recovery(t *testing.T) {
 				relay.Retarget(s.S.TCP)
 			},
 		}
-		for _, dup := range []string{"reading", "tick", "relay"} {
+		for _, dup := range []string{"reading", "tick", "relay", "burst"} {
 			actions[dup+"#2"] = actions[dup]
 		}
 		actions["reading#3"] = actions["reading"]
